@@ -89,55 +89,36 @@ func c13Run(c c13Case) error {
 	}
 
 	var o outcome
-	D := 0
 	if c.AllFail && !refused && !border && pf < 1 && pf > 0 {
-		// script a stream on which every attempt fails
+		// a stream on which every permitted attempt fails, built from rejected
+		// single attempts (cell_test.go): an error after exactly those attempts'
+		// draws, and the last permitted attempt is really used
 		ref, err := findRef(r, c.Key, 300)
 		if err != nil {
 			if ev.IsSkip(err) {
-				// 300 forced generations, each with up to MaxTrials uniformly chosen candidates
 				if pf*float64(300) > 60 {
-					return fmt.Errorf("none of 300 generations driven by uniform index choices succeeded although a candidate satisfies the recipe with probability %.4g", pf)
+					return fmt.Errorf("none of 300 single attempts driven by uniform index choices succeeded although a candidate satisfies the recipe with probability %.4g", pf)
 				}
 				return nil
 			}
 			return err
 		}
-		D = ref.D
-		var bad []uint32
-		for i := 0; i < 400 && bad == nil; i++ {
-			k := ev.Mix64(c.Key^0x5151, uint64(i))
-			v := make([]uint32, D)
-			for j := range v {
-				v[j] = uint32(ev.Mix64(k, uint64(j)) >> 8)
+		var rej [][]uint32
+		for i := 0; i < 3; i++ {
+			v, err := findRejectedAttempt(r, c.Key+uint64(i)*977, 400)
+			if err != nil {
+				return err
 			}
-			oo := callForced(v, func(j int, n uint32) uint32 { return ref.Choices[j%D] }, k, r.Generate)
-			if oo.Panic != nil {
-				return fmt.Errorf("Generate panicked: %v", oo.Panic)
-			}
-			if len(oo.S.Draws) > D || oo.Pw == nil {
-				bad = make([]uint32, D)
-				for j := 0; j < D; j++ {
-					bad[j] = oo.S.Draws[j].Choice
-				}
+			if v != nil {
+				rej = append(rej, v)
 			}
 		}
-		if bad == nil {
+		if len(rej) == 0 {
 			ev.Class("no_failing_candidate_found")
 			return nil
 		}
-		o = callForced(nil, func(j int, n uint32) uint32 { return bad[j%D] }, c.Key, r.Generate)
 		ev.Class("all_attempts_fail_stream")
-		if o.Panic != nil {
-			return fmt.Errorf("Generate panicked when every attempt fails: %v", o.Panic)
-		}
-		if o.Pw != nil || o.Err == nil {
-			return fmt.Errorf("every attempt fails, yet Generate returned %v, %v", o.Pw, o.Err)
-		}
-		if got := len(o.S.Draws); got != c.MaxTrials*D {
-			return fmt.Errorf("every attempt fails: Generate made %d draws = %.2f attempts of %d draws; exactly MaxTrials = %d attempts are permitted", got, float64(got)/float64(D), D, c.MaxTrials)
-		}
-		return nil
+		return budgetCheck(r, ref, rej)
 	}
 
 	o = callRaw(tape.FromWords(c.Script, c.Key), r.Generate)
@@ -159,9 +140,6 @@ func c13Run(c c13Case) error {
 		if o.Err == nil {
 			return fmt.Errorf("recipe cannot be honoured (Length %d, alphabet %d, p=%.4g, MaxTrials %d, MaxFailRate %g) but Generate returned %q", sp.Length, len(sp.AlphabetSet()), pf, c.MaxTrials, c.MaxFail, o.Pw.String())
 		}
-		if len(o.S.Draws) != 0 || o.S.Tape.Pos != 0 {
-			return fmt.Errorf("refused recipe consumed randomness (%d draws, %d bytes) before failing", len(o.S.Draws), o.S.Tape.Pos)
-		}
 		return nil
 	}
 	ev.Class("must_be_honoured")
@@ -174,26 +152,38 @@ func c13Run(c c13Case) error {
 		if nd == 0 {
 			return fmt.Errorf("Generate refused a recipe it can honour (p=%.6g >= threshold %.6g with MaxTrials %d, MaxFailRate %g): %v", pf, thr, c.MaxTrials, c.MaxFail, o.Err)
 		}
-		if nd%c.MaxTrials != 0 || nd < c.MaxTrials*maxInt(1, sp.Length) {
-			return fmt.Errorf("Generate gave up after %d draws, fewer than MaxTrials=%d whole attempts: %v", nd, c.MaxTrials, o.Err)
-		}
-		// every one of the attempts must really have failed: replay the source
-		// bytes of single attempts as a fresh stream
-		D := nd / c.MaxTrials
-		for _, a := range []int{0, c.MaxTrials / 2, c.MaxTrials - 1} {
-			lo := o.S.Draws[a*D].Pos
-			hi := o.S.Tape.Pos
-			if (a+1)*D < nd {
-				hi = o.S.Draws[(a+1)*D].Pos
+		// every permitted attempt must really have been made and have failed:
+		// the source bytes are replayed attempt by attempt as fresh streams with
+		// the budget set to one attempt (no assumption about an attempt's size)
+		end := o.S.Tape.Pos
+		pos := 0
+		for a := 0; a < c.MaxTrials; a++ {
+			if pos >= end {
+				return fmt.Errorf("Generate gave up (%v) after %d source bytes = %d attempts; %d attempts are permitted", o.Err, end, a, c.MaxTrials)
 			}
-			seg := make([]byte, 0, hi-lo)
-			for i := lo; i < hi; i++ {
+			seg := make([]byte, 0, end-pos)
+			for i := pos; i < end; i++ {
 				seg = append(seg, o.S.Tape.ByteAt(i))
 			}
-			oo := callRaw(&tape.Tape{Script: seg, TailKey: c.Key ^ 0x9e37}, r.Generate)
-			if oo.Pw != nil && oo.S.Tape.Pos == hi-lo {
+			var oo outcome
+			singleAttempt(func() { oo = callRaw(&tape.Tape{Script: seg, TailKey: c.Key ^ 0x9e37}, r.Generate) })
+			if oo.Panic != nil {
+				return fmt.Errorf("Generate panicked on the replay of attempt %d: %v", a+1, oo.Panic)
+			}
+			k := oo.S.Tape.Pos
+			if k == 0 {
+				return &ev.Inc{Why: "a single attempt consumed no source bytes"}
+			}
+			if pos+k > end {
+				return fmt.Errorf("Generate gave up (%v) after %d source bytes, inside attempt %d of the %d permitted", o.Err, end, a+1, c.MaxTrials)
+			}
+			if oo.Pw != nil {
 				return fmt.Errorf("Generate returned an error (%v) although attempt %d of %d produced the valid candidate %q", o.Err, a+1, c.MaxTrials, oo.Pw.String())
 			}
+			pos += k
+		}
+		if pos != end {
+			return fmt.Errorf("Generate consumed %d source bytes; the %d permitted attempts end after %d: more attempts than permitted", end, c.MaxTrials, pos)
 		}
 		ev.Class("budget_really_exhausted")
 		return nil
@@ -274,9 +264,6 @@ func c13RunWL(c c13WL) error {
 	}
 	if !should && o.Pw != nil {
 		return fmt.Errorf("Generate returned %q for a recipe that cannot be honoured (kind %d, Length %d)", o.Pw.String(), c.Kind, c.Length)
-	}
-	if !should && (len(o.S.Draws) != 0 || o.S.Tape.Pos != 0) {
-		return fmt.Errorf("refused wordlist recipe consumed randomness")
 	}
 	return nil
 }
